@@ -106,6 +106,8 @@ Definition reviewed_flag_sites : list (string * string * string * string) := [
   ("Query", "NewVmContextQuery", "call", "queries run in a query context");
   ("executor.call", "nestedView", "++ direct", "checked by Balance");
   ("executor.call", "nestedView", "-- deferred closure", "checked by Balance");
+  ("clearRecoveryPoint", "lastRecoveryPoint", "assign ctx.lastRecoveryPoint = item.prev", "the unlink of clearRecoveryPoint (translated to RecPop at its call sites, VmGuard/RecPoint.v)");
+  ("createRecoveryPoint", "lastRecoveryPoint", "assign ctx.lastRecoveryPoint = rp", "the link of createRecoveryPoint (translated to RecPush at its call sites)");
   ("luaCheckView", "nestedView", "read: return C.int(ctx.nestedView)", "the C side tests luaCheckView(...) > 0 (atom V): the callback must return the counter itself");
   ("luaViewEnd", "nestedView", "-- direct", "bracket callback");
   ("luaViewStart", "nestedView", "++ direct", "bracket callback");
